@@ -254,11 +254,22 @@ impl RawGen {
                     // delimiters that are a control sequence and a character beyond the BMP
                     8 => ("#1\\relax#2\u{1d538}".to_string(), format!("[#2,{id},#1]"), MacroKind::CsDelim),
                     9 => {
-                        let n = 2 + rng.below(6);
                         let mut pat = String::new();
-                        for _ in 0..n {
-                            // biased towards runs, which is what makes borders long
-                            pat.push(if rng.chance(2, 3) { '-' } else { '>' });
+                        if rng.chance(1, 2) {
+                            // a run, a break, a tail: the shape whose borders nest
+                            let (a, b) = if rng.chance(1, 2) { ('-', '>') } else { ('>', '-') };
+                            for _ in 0..2 + rng.below(3) {
+                                pat.push(a);
+                            }
+                            pat.push(b);
+                            for _ in 0..1 + rng.below(3) {
+                                pat.push(if rng.chance(1, 2) { a } else { b });
+                            }
+                        } else {
+                            for _ in 0..2 + rng.below(6) {
+                                // biased towards runs, which is what makes borders long
+                                pat.push(if rng.chance(2, 3) { '-' } else { '>' });
+                            }
                         }
                         (format!("#1{pat}"), format!("[#1|{id}]"), MacroKind::DelimRandom(pat))
                     }
@@ -690,18 +701,26 @@ impl RawGen {
             MacroKind::BraceDelim => format!("{name} P{v}{{}}"),
             MacroKind::CsDelim => format!("{name} P{v}\\relax Q\u{1d538}"),
             MacroKind::DelimRandom(pat) => {
-                // near misses: prefixes of the delimiter, broken by the other letter or restarted
+                // near misses: prefixes and suffixes of the delimiter and single letters, in any
+                // order (a pure function of v)
                 let mut x = (v as u64).wrapping_mul(0x9E37_79B9_7F4A_7C15) | 1;
+                let mut next = || {
+                    x = x.wrapping_mul(6364136223846793005).wrapping_add(1442695040888963407);
+                    (x >> 33) as usize
+                };
                 let mut t = String::new();
-                for _ in 0..(x % 4) + 1 {
-                    x = x.wrapping_mul(6364136223846793005).wrapping_add(1442695040888963407);
-                    let cut = 1 + ((x >> 33) as usize % pat.len());
-                    t.push_str(&pat[..cut]);
-                    x = x.wrapping_mul(6364136223846793005).wrapping_add(1442695040888963407);
-                    match (x >> 33) % 3 {
-                        0 => t.push('-'),
-                        1 => t.push('>'),
-                        _ => {}
+                if next() % 2 == 0 && pat.len() >= 3 {
+                    // the classical hard input: a proper prefix, then the delimiter shifted by one
+                    // or two places
+                    let j = 2 + next() % (pat.len() - 2);
+                    t.push_str(&pat[..j]);
+                    t.push_str(&pat[1 + next() % 2..]);
+                }
+                for _ in 0..next() % 5 {
+                    match next() % 4 {
+                        0 | 1 => t.push_str(&pat[..1 + next() % pat.len()]),
+                        2 => t.push_str(&pat[next() % pat.len()..]),
+                        _ => t.push(if next() % 2 == 0 { '-' } else { '>' }),
                     }
                 }
                 format!("{name} {t}x{v}{t}{pat}{t}{pat}")
@@ -713,7 +732,7 @@ impl RawGen {
     pub fn whole_line(&mut self, rng: &mut Rng) -> String {
         self.reach.push("line_with_visible_end_of_line");
         let id = self.id();
-        match rng.below(8) {
+        match rng.below(10) {
             0 => format!("W{id}"),
             1 => format!("W{id} \\relax"),
             2 => format!("\\count18={id}"),
@@ -724,6 +743,10 @@ impl RawGen {
             // a backslash at the end of a line is the control symbol whose name is the end-of-line
             // character; it can be defined and used like any other name
             6 => format!("\\def\\\n{{W{id}.}}A\\\nB"),
+            // ... and used in a later source (after a restore, with luck); undefined if it was
+            // never defined, which is an ordinary located error
+            7 => format!("U{id}\\\nV"),
+            8 => format!("\\def\\\n{{W{id}.}}"),
             _ => format!("\\count18={id}\nV\\the\\count18\n\\fi"),
         }
     }
